@@ -759,5 +759,27 @@ def rule_tte(F, R):
                         if rc['k'] == 'Call' and rc['args']: chain.append((callee_name(rc) or '').split('::')[-1]); rc = rc['args'][0]
                         else: break
                     if any(c_ in ('skip', 'take', 'filter', 'step_by', 'skip_while', 'take_while', 'nth') for c_ in chain): ok = False; listed = set(listed) | {'(searched through %s)' % '.'.join(reversed(chain))}
+                    # ... and what selects a variant is `matches` applied to that variant and the text being parsed, nothing beside it
+                    # (a predicate that accepts more - `name.contains(text) || variant.matches(text)` - lets an earlier variant take a later one's spelling)
+                    if lib.ithir.get(TT_ + '::matches') is not None and len(x['args']) > 1:
+                        def strip_(e_):
+                            while e_ is not None and (e_['k'] in ('Borrow', 'Deref', 'Use', 'Scope') or (e_['k'] == 'Block' and not e_.get('stmts') and e_.get('expr'))):
+                                e_ = e_.get('arg') or e_.get('source') or e_.get('expr') or e_.get('value')
+                            return e_
+                        pr = strip_(x['args'][1]); body_fn = lib.ithir[fs_[0]]
+                        if pr is not None and pr['k'] == 'VarRef':
+                            lets_ = [l_ for l_ in walk(body_fn['body']) if l_['k'] == 'Let' and l_['pat'].get('k') == 'Binding' and l_['pat'].get('var') == pr['var'] and l_.get('init')]
+                            pr = strip_(lets_[0]['init']) if len(lets_) == 1 else None
+                        cl = (lib.ithir.get(pr['def']) or lib.thir.get(pr['def'])) if pr is not None and pr['k'] == 'Closure' else None
+                        sel_ok = False; why = 'the predicate handed to the search is not a closure of from_str'
+                        if cl is not None:
+                            cb = strip_(cl['body']); pv = [q_['pat'].get('var') for q_ in cl['params'] if q_.get('pat')]
+                            sv = [q_['pat'].get('var') for q_ in body_fn['params'] if q_.get('pat') and q_['pat'].get('k') == 'Binding']
+                            why = 'the predicate is `%s`' % pp(cl['body']).strip()[:160]
+                            if cb is not None and cb['k'] == 'Call' and callee_name(cb) == TT_ + '::matches' and len(cb['args']) == 2:
+                                a0 = strip_(cb['args'][0]); a1 = strip_(cb['args'][1])
+                                sel_ok = a0 is not None and a0['k'] == 'VarRef' and a0['var'] in pv and a1 is not None and a1['k'] in ('UpvarRef', 'VarRef') and a1['var'] in sv
+                        R.count('T:filter-selection-predicate'); R.obligation(sel_ok, 'T tte selection predicate')
+                        if not sel_ok: R.violation(fs_[0] + ' / T / selection predicate', 'UNDECIDABLE', 'a variant must be selected by `variant.matches(<the text being parsed>)` alone (the table of spellings is what `matches` holds); %s' % why)
         R.count('T:filter-variants-listed'); R.obligation(ok, 'T tte variants')
         if not ok: R.violation(TT_ + '::variants / T / list of variants', 'T', 'the list searched by from_str holds %s; every one of True, False, Any must be in it (its spellings are refused otherwise)' % sorted(listed))
